@@ -1,29 +1,9 @@
 ---------------------------- MODULE MCRegistry ----------------------------
 (* Model-checking instance of Registry: universe shared with the Go harness *)
-(* (harness/registry/universe.go must agree; the harness checks this at     *)
-(* start-up against the "universe" vector).                                  *)
-EXTENDS Registry, Json
+(* (exported through the @@UNI line; the harness reads it, nothing is duplicated *)
+(* in Go).                                                                    *)
+EXTENDS Registry, RegistryUniverses, Json
 
-
-V(k, v) == [k |-> k, v |-> v]
-
-MCPoolA == << [pat |-> "a", sel |-> "s1", failAt |-> 1],
-              [pat |-> "a", sel |-> "s2", failAt |-> 0],
-              [pat |-> "*", sel |-> "s1", failAt |-> 2],
-              [pat |-> "b", sel |-> "s2", failAt |-> 0] >>
-\* second pool: adjacent matching subscribers, both failing, wildcard first
-MCPoolB == << [pat |-> "*", sel |-> "s2", failAt |-> 1],
-              [pat |-> "a", sel |-> "s1", failAt |-> 1],
-              [pat |-> "a", sel |-> "s1", failAt |-> 2],
-              [pat |-> "b", sel |-> "s2", failAt |-> 1] >>
-\* selection id -> <<responseKey, fieldName>>; s2 uses an alias and two fields
-MCSelKeys == [ s1 |-> << <<"name", "name">> >>,
-               s2 |-> << <<"n", "n">>, <<"t", "name">> >> ]
-MCEvVals == [ e1 |-> [name |-> V("str", "one"), n |-> V("int", 1)],
-              e2 |-> [name |-> V("str", "two"), n |-> V("int", 2)] ]
-
-MCInitEmpty == { <<>> }
-MCInitSome == { <<>>, <<1>>, <<1, 2>>, <<1, 2, 3>>, <<3, 1>>, <<2, 1, 3, 4>> }
 
 Universe == [pool |-> Pool, selKeys |-> SelKeys, evVals |-> EvVals, ids |-> Ids]
 ASSUME PrintT("@@UNI " \o ToJson(Universe))
